@@ -25,7 +25,7 @@ class Ob:
     def __init__(self, id, props, tu, roots, harness, entry='harness', spec=None, enforce=None, replace=(),
                  tier='U', unwind=None, unwindset=None, defines=None, cfg='kernel', timeout=300, quick=True,
                  covers=0, expect_loops=(), note='', flags=(), bounds=None, loop_contracts=True, object_bits=12,
-                 expected_fail=(), kissat=False, spec_text='', includes=(), copies=(), stubs=None):
+                 expected_fail=(), kissat=False, spec_text='', includes=(), copies=(), stubs=None, inline_vec=False, adaptive_unwind=True):
         self.id = id; self.props = props; self.tu = tu; self.roots = roots; self.harness = harness; self.entry = entry
         self.mesh_harness = None
         if not isinstance(harness, str):
@@ -34,7 +34,7 @@ class Ob:
         self.unwind = unwind; self.unwindset = unwindset; self.defines = defines or {}; self.cfg = cfg
         self.timeout = timeout; self.quick = quick; self.covers = covers; self.expect_loops = expect_loops
         self.note = note; self.flags = list(flags); self.bounds = bounds or {}; self.loop_contracts = loop_contracts
-        self.object_bits = object_bits; self.expected_fail = expected_fail; self.kissat = kissat; self.spec_text = spec_text; self.includes = list(includes); self.copies = list(copies); self.stubs = stubs or {}
+        self.object_bits = object_bits; self.expected_fail = expected_fail; self.kissat = kissat; self.spec_text = spec_text; self.includes = list(includes); self.copies = list(copies); self.stubs = stubs or {}; self.inline_vec = inline_vec; self.adaptive_unwind = adaptive_unwind
 
 # ---------------------------------------------------------------------------------------------- AST cache
 TUS = {'kernel': 'tu/kernel.cc', 'tethex': 'tu/tethex.cc', 'ovmb': 'tu/ovmb.cc', 'vector': 'tu/vector.cc'}
@@ -155,6 +155,7 @@ def run_ob(ob, tier, workdir):
         contracts = parse_spec(specs_text(ob.spec) + '\n' + ob.spec_text)
         cfg = cfg_named(ob.cfg)
         cfg['prelude'] = 'extern int g_k, g_j; extern unsigned long g_u;\n'
+        cfg['vstd_inline'] = ob.inline_vec
         cfg['stubs'] = dict(cfg.get('stubs', {}))
         for q in ob.stubs: cfg['stubs'][q] = 1
         unit = Unit(ix, contracts=contracts, cfg=cfg)
@@ -177,7 +178,7 @@ def run_ob(ob, tier, workdir):
         res['ptr_refs'] = sorted(set('%s@%s' % pr for cn, i in unit.em.func_info.items() for pr in i.get('ptr_refs', [])))
         open(os.path.join(d, 'gen.c'), 'w').write(ctext)
         hpath = os.path.join(d, 'h.c')
-        defs = ''.join('#define %s %s\n' % kv for kv in ob.defines.items())
+        defs = ''.join('#define %s %s\n' % kv for kv in ob.defines.items()) + ('#define VSTD_INLINE 1\n' if ob.inline_vec else '')
         stubs = ghost_stub_bodies(unit, ob) if unit.em.stub_protos else ''
         inc = ''.join('#include "%s/spec/%s"\n' % (ROOT, h) for h in ob.includes)
         open(hpath, 'w').write(defs + '#include "gen.c"\nint g_k, g_j; unsigned long g_u;\n#include "%s/spec/common.h"\n' % ROOT + inc + stubs + ob.harness + '\n')
@@ -216,13 +217,41 @@ def run_ob(ob, tier, workdir):
         if rc != 0:
             res['status'] = 'undecided'; res['reason'] = 'goto-instrument failed: ' + out[-800:]; res['wall_s'] = time.time() - t0; return res
         binp = 'b.gb'
-    cb = ['cbmc', binp] + CBMC_FLAGS + ob.flags
-    if ob.unwind is not None: cb += ['--unwind', str(ob.unwind), '--unwinding-assertions']
-    if ob.unwindset: cb += ['--unwindset', ob.unwindset, '--unwinding-assertions']
-    if ob.object_bits: cb += ['--object-bits', str(ob.object_bits)]
-    if ob.kissat: cb += ['--external-sat-solver', 'kissat']
+    cb0 = ['cbmc', binp] + CBMC_FLAGS + ob.flags
+    if ob.object_bits: cb0 += ['--object-bits', str(ob.object_bits)]
+    if ob.kissat: cb0 += ['--external-sat-solver', 'kissat']
     to = ob.timeout if tier == 'quick' else max(ob.timeout, 900)
-    rc, out, dt = sh(cb, to, log, cwd=d, mem_gb=int(os.environ.get('VERIF_MEM_GB', '10')))
+    memgb = int(os.environ.get('VERIF_MEM_GB', '12'))
+    uset = {}
+    if ob.unwindset:
+        for kv in ob.unwindset.split(','): uset[kv.rsplit(':', 1)[0]] = int(kv.rsplit(':', 1)[1])
+    dt = 0.0
+    if ob.unwind is not None and ob.adaptive_unwind:
+        # adaptive unwinding: start low; every loop whose unwinding assertion fails gets a larger bound, up to ob.unwind.
+        # (paths beyond a failed unwinding assertion are cut, so early rounds are cheap; the final round has none failing)
+        U0 = min(3, ob.unwind)
+        for rnd in range(14):
+            cb = cb0 + ['--unwind', str(U0), '--unwinding-assertions'] + (['--unwindset', ','.join('%s:%d' % kv for kv in sorted(uset.items()))] if uset else [])
+            rc, out, d1 = sh(cb, to, log, cwd=d, mem_gb=memgb); dt += d1
+            bad = [m.group(1) for m in re.finditer(r'^\[([^\]]+\.unwind\.\d+)\] .*unwinding assertion loop \d+: FAILURE', out, re.M)]
+            if not bad or 'TIMEOUT' in out: break
+            grown = False
+            for b in bad:
+                fn, n = b.rsplit('.unwind.', 1); lid = '%s.%s' % (fn, n)
+                cur = uset.get(lid, U0)
+                if cur < ob.unwind:
+                    uset[lid] = min(ob.unwind, cur + 2); grown = True
+            if not grown: break
+        res['unwindset'] = dict(uset)
+        ob_unwind_flags = ['--unwind', str(U0)] + (['--unwindset', ','.join('%s:%d' % kv for kv in sorted(uset.items()))] if uset else [])
+    else:
+        cb = list(cb0)
+        ob_unwind_flags = []
+        if ob.unwind is not None: ob_unwind_flags += ['--unwind', str(ob.unwind)]
+        if uset: ob_unwind_flags += ['--unwindset', ','.join('%s:%d' % kv for kv in sorted(uset.items()))]
+        cb += ob_unwind_flags + (['--unwinding-assertions'] if ob_unwind_flags else [])
+        rc, out, dt = sh(cb, to, log, cwd=d, mem_gb=memgb)
+    res['unwind_flags'] = ob_unwind_flags
     res['solver_s'] = dt
     results = [(m.group(1), m.group(3), m.group(4)) for m in RES_RE.finditer(out)]
     res['results'] = results
@@ -250,9 +279,7 @@ def run_ob(ob, tier, workdir):
     # vacuity: cover points (build with -DCOVER_RUN: each COVER(c) becomes assert(!c) and must FAIL, i.e. be reachable)
     if res['status'] == 'pass' and ob.covers:
         rc2, out2, _ = sh(['goto-cc', '--function', ob.entry, '-DCOVER_RUN', 'h.c', '-o', 'c.gb', '-I', ROOT], 120, log, cwd=d)
-        cb2 = ['cbmc', 'c.gb', '--no-malloc-may-fail', '--no-standard-checks']
-        if ob.unwind is not None: cb2 += ['--unwind', str(ob.unwind)]
-        if ob.unwindset: cb2 += ['--unwindset', ob.unwindset]
+        cb2 = ['cbmc', 'c.gb', '--no-malloc-may-fail', '--no-standard-checks'] + res.get('unwind_flags', [])
         if ob.object_bits: cb2 += ['--object-bits', str(ob.object_bits)]
         rc2, out2, dt2 = sh(cb2, to, log, cwd=d)
         cov = [(m.group(1), m.group(3), m.group(4)) for m in RES_RE.finditer(out2) if m.group(3).startswith('COVER ')]
@@ -365,9 +392,7 @@ def make_replay(ob, r, path, prop):
     """write the replay file: failed obligations + CBMC trace; returns True when a native replay confirmed"""
     d = os.path.dirname(r['log'])
     binp = 'b.gb' if os.path.exists(os.path.join(d, 'b.gb')) else 'a.gb'
-    cb = ['cbmc', binp] + CBMC_FLAGS + ob.flags + ['--trace', '--stop-on-fail']
-    if ob.unwind is not None: cb += ['--unwind', str(ob.unwind)]
-    if ob.unwindset: cb += ['--unwindset', ob.unwindset]
+    cb = ['cbmc', binp] + CBMC_FLAGS + ob.flags + ['--trace', '--stop-on-fail'] + r.get('unwind_flags', [])
     if ob.object_bits: cb += ['--object-bits', str(ob.object_bits)]
     rc, out, dt = sh(cb, 600, r['log'], cwd=d)
     i = max(out.find('Trace for'), out.find('Counterexample:'))
